@@ -447,7 +447,7 @@ def run(ctx):
         tab, notes, changed = TR.translate()
     except (SyntaxError, FileNotFoundError) as e:
         raise Infra(f"translator cannot read the source: {e}")
-    ok = build_and_audit(ctx, "XgiModel.Props.C17", ["XgiModel.C17.Drive"])
+    ok = build_and_audit(ctx, "XgiModel.Props.C17", ["XgiModel.C17.Drive"], translate=TR.translate)
     build_errors = []
     if not ok:
         good, out = lean_build(["XgiModel.C17.Drive"])
